@@ -255,4 +255,43 @@ example : mergedView (compactFiles { maxMemTables := 2 } exTracker 0 10 exTask +
   compact_preserves_merged_view { maxMemTables := 2 } exTracker 0 10 exTask [t3, deep] exTask_wf exTask_recencyOrdered
     exTask_tombstoneSafe
 
+/-! ### the tracker's clock (component `compaction`, op `advance`; hook VerifShift) -/
+
+/-- every recorded delete REFRESHES the record: after `add k now` the marker of `k` is kept exactly until `retention` has
+    passed since THAT delete, whatever was recorded for `k` before (a tracker that keeps the first deletion time — seeded
+    change C12-9 — drops the marker of a re-deleted key too early) -/
+theorem tracker_add_refreshes (t : Tracker) (k : Bytes) (now now' retention : Nat) (hp : t.preserve.contains k = false) :
+    (t.add k now).shouldKeep retention now' k = decide (now' - now < retention) := by
+  have hk : k ∉ t.preserve := by simpa using hp
+  unfold Tracker.add Tracker.shouldKeep
+  simp [hk]
+
+theorem find_filter_other (k k' : Bytes) (hne : k' ≠ k) : ∀ (ds : List (Bytes × Nat)),
+    (ds.filter (fun d => d.1 != k')).find? (fun d => d.1 == k) = ds.find? (fun d => d.1 == k)
+  | [] => rfl
+  | d :: ds => by
+    have ih := find_filter_other k k' hne ds
+    by_cases hd : d.1 = k'
+    · have h1 : (d.1 != k') = false := by simp [hd]
+      have h2 : (d.1 == k) = false := by rw [hd]; simpa using hne
+      simp only [List.filter_cons, h1, List.find?_cons, h2]
+      exact ih
+    · have h1 : (d.1 != k') = true := by simpa using hd
+      simp only [List.filter_cons, h1, if_true, List.find?_cons]
+      cases (d.1 == k)
+      · exact ih
+      · rfl
+
+/-- recording a delete of another key leaves the decision for `k` as it was -/
+theorem tracker_add_other (t : Tracker) (k k' : Bytes) (now now' retention : Nat) (hne : k' ≠ k) :
+    (t.add k' now).shouldKeep retention now' k = t.shouldKeep retention now' k := by
+  unfold Tracker.add Tracker.shouldKeep
+  have h1 : (k' == k) = false := by simpa using hne
+  simp only [List.find?_cons, h1, find_filter_other k k' hne]
+
+/-- non-vacuity: delete at 0, delete again at 50000, compaction at 90000 (retention 86400): kept (40000 < 86400 since the
+    SECOND delete); at 140000: dropped -/
+example : (((({} : Tracker).add [1] 0).add [1] 50000).shouldKeep 86400 90000 [1], ((({} : Tracker).add [1] 0).add [1] 50000).shouldKeep 86400 140000 [1])
+    = (true, false) := by decide
+
 end Kevo.Props.C12
